@@ -335,11 +335,17 @@ class Repo:
                 if fi.qual not in known:
                     continue
                 left = set()
+                local_fns = {x.name for x in ast.walk(fi.node) if isinstance(x, ast.FunctionDef) and x is not fi.node
+                             and f"{fi.qual}.{x.name}" not in known}
+                local_fns |= {t.id for x in ast.walk(fi.node) if isinstance(x, ast.Assign) and isinstance(x.value, ast.Lambda)
+                              for t in x.targets if isinstance(t, ast.Name)}
                 for n in walk_local(fi.node):
                     if isinstance(n, ast.Call):
                         r = inl.resolve(n, fi)
                         if r:
                             left.add(r[0].qual)
+                        elif isinstance(n.func, ast.Name) and n.func.id in local_fns:
+                            left.add(f"{fi.qual}.{n.func.id}")      # a local closure the inliner could not splice in
                         elif isinstance(n.func, ast.Name) and n.func.id in new_classes:
                             left.add(n.func.id)
                 if left:
@@ -558,14 +564,133 @@ def _split_tuple_assignments(tree):
                     h.body = self._tail_continue(h.body)
             return stmts
 
+        def _guard_continue(self, stmts):
+            """loop body  `if c: A; continue` REST   ==   `if c: A / else: REST`  (the guard-clause form of a nested if/else; the
+            control-flow graph is the same, the nested form is the one the rules read)"""
+            for i, s in enumerate(stmts):
+                if not isinstance(s, ast.If) or i == len(stmts) - 1:
+                    continue
+                rest = stmts[i + 1:]
+                if s.body and isinstance(s.body[-1], ast.Continue):
+                    new = ast.copy_location(ast.If(test=s.test, body=s.body[:-1] or [ast.copy_location(ast.Pass(), s)],
+                                                   orelse=self._guard_continue(s.orelse + rest)), s)
+                    return stmts[:i] + [new]
+                if s.orelse and isinstance(s.orelse[-1], ast.Continue):
+                    new = ast.copy_location(ast.If(test=s.test, body=self._guard_continue(s.body + rest),
+                                                   orelse=s.orelse[:-1] or [ast.copy_location(ast.Pass(), s)]), s)
+                    if all(isinstance(x, ast.Pass) for x in new.orelse):
+                        new.orelse = []
+                    return stmts[:i] + [new]
+            return stmts
+
         def visit_For(self, n):
             n = self.generic_visit(n)
-            n.body = self._tail_continue(n.body)
+            n.body = self._tail_continue(self._guard_continue(n.body))
             return n
 
         def visit_While(self, n):
             n = self.generic_visit(n)
-            n.body = self._tail_continue(n.body)
+            n.body = self._tail_continue(self._guard_continue(n.body))
+            return n
+
+        def _unswitch_defs(self, block):
+            """`if c: def g(..): A / else: def g(..): B` followed by REST  ==  `if c: def g1..; REST[g1] / else: def g2..; REST[g2]`
+            (tail duplication, always meaning-preserving): each copy of REST then calls exactly one local function, which the helper
+            inliner can resolve.  Only when both arms define the same local function and REST is small."""
+            import copy as _c
+            for i, s in enumerate(block):
+                if not (isinstance(s, ast.If) and s.orelse):
+                    continue
+                da = {x.name for x in s.body if isinstance(x, ast.FunctionDef)}
+                db = {x.name for x in s.orelse if isinstance(x, ast.FunctionDef)}
+                both = da & db
+                rest = block[i + 1:]
+                if not both or not rest or sum(1 for r in rest for _ in ast.walk(r)) > 600:
+                    continue
+                if any(isinstance(x, (ast.Global, ast.Nonlocal)) for r in rest + [s] for x in ast.walk(r)):
+                    continue
+
+                def arm(stmts, tag):
+                    class R(ast.NodeTransformer):
+                        def visit_Name(self, x):
+                            if x.id in both:
+                                return ast.copy_location(ast.Name(id=f"{x.id}__{tag}", ctx=x.ctx), x)
+                            return x
+
+                        def visit_FunctionDef(self, x):
+                            self.generic_visit(x)
+                            if x.name in both:
+                                x.name = f"{x.name}__{tag}"
+                            return x
+                    return [R().visit(_c.deepcopy(x)) for x in stmts]
+                new = ast.copy_location(ast.If(test=s.test, body=arm(s.body + rest, "a"), orelse=arm(s.orelse + rest, "b")), s)
+                return block[:i] + [new]
+            return block
+
+        def _test_temps(self, fn):
+            """`t = E` immediately followed by `if t:` / `if not t:` / `if t and ..:` where t is used nowhere else  ==  `if E:` ...
+            (the test is evaluated at the same point; the rules read conditions on branch edges)"""
+            loads, stores = {}, {}
+            for x in ast.walk(fn):
+                if isinstance(x, ast.Name):
+                    d = loads if isinstance(x.ctx, ast.Load) else stores
+                    d[x.id] = d.get(x.id, 0) + 1
+            params = {a.arg for a in fn.args.posonlyargs + fn.args.args + fn.args.kwonlyargs}
+
+            def first_operand(t):
+                while True:
+                    if isinstance(t, ast.UnaryOp) and isinstance(t.op, ast.Not):
+                        t = t.operand
+                    elif isinstance(t, ast.BoolOp):
+                        t = t.values[0]
+                    else:
+                        return t
+
+            def go(stmts):
+                out, i = [], 0
+                while i < len(stmts):
+                    s = stmts[i]
+                    nxt = stmts[i + 1] if i + 1 < len(stmts) else None
+                    if isinstance(s, (ast.Assign, ast.AnnAssign)) and getattr(s, "value", None) is not None and isinstance(nxt, ast.If):
+                        tg = s.targets[0] if isinstance(s, ast.Assign) and len(s.targets) == 1 else getattr(s, "target", None)
+                        if isinstance(tg, ast.Name) and tg.id not in params and loads.get(tg.id, 0) == 1 and stores.get(tg.id, 0) == 1 \
+                                and isinstance(s.value, (ast.BoolOp, ast.Compare, ast.UnaryOp)):
+                            fo = first_operand(nxt.test)
+                            if isinstance(fo, ast.Name) and fo.id == tg.id:
+                                val = s.value
+
+                                class R(ast.NodeTransformer):
+                                    def visit_Name(self, x):
+                                        return val if x.id == tg.id and isinstance(x.ctx, ast.Load) else x
+                                nxt.test = R().visit(nxt.test)
+                                i += 1
+                                continue
+                    for fld in ("body", "orelse", "finalbody"):
+                        b = getattr(s, fld, None)
+                        if isinstance(b, list) and b and isinstance(b[0], ast.stmt) and not isinstance(s, (ast.FunctionDef, ast.ClassDef)):
+                            setattr(s, fld, go(b))
+                    if isinstance(s, ast.Try):
+                        for h in s.handlers:
+                            h.body = go(h.body)
+                    out.append(s)
+                    i += 1
+                return out
+            fn.body = go(fn.body)
+            return fn
+
+        def visit_FunctionDef(self, n):
+            n = self._test_temps(n)
+            n = self.generic_visit(n)
+            if any(isinstance(x, ast.FunctionDef) for st in n.body for x in ast.walk(st)):
+                def blocks(stmts):
+                    stmts = self._unswitch_defs(stmts)
+                    for st in stmts:
+                        for fld in ("body", "orelse", "finalbody"):
+                            b = getattr(st, fld, None)
+                            if isinstance(b, list) and b and isinstance(b[0], ast.stmt) and not isinstance(st, (ast.FunctionDef, ast.ClassDef)):
+                                setattr(st, fld, blocks(b))
+                    return stmts
+                n.body = blocks(n.body)
             return n
 
         def visit_Return(self, n):
